@@ -66,15 +66,6 @@ def implCode : Nat :=
 def allCode (n : Nat) : Nat :=
   lamCode (fun f => if f = 2 ^ n - 1 then 1 else 0) (2 ^ n) 2
 
-/-- Is `const name T` one of the three logical constants at a genuine instance of its type?
-Returns the carrier type. -/
-def logicalKind (name : String) (T : Ty) : Option (Nat × Ty) :=
-  match name, T with
-  | "equals", .con "fun" [a, .con "fun" [a', .con "bool" []]] => if a = a' then some (0, a) else none
-  | "implies", .con "fun" [.con "bool" [], .con "fun" [.con "bool" [], .con "bool" []]] => some (1, Ty.bool)
-  | "all", .con "fun" [.con "fun" [a, .con "bool" []], .con "bool" []] => some (2, a)
-  | _, _ => none
-
 def constVal (M : Model) (ρ : Valuation) (name : String) (T : Ty) : Nat :=
   match logicalKind name T with
   | some (0, a) => eqCode (M.size a)
@@ -109,14 +100,6 @@ def holds (M : Model) (ρ : Valuation) (t : Term) : Prop := sem M ρ [] [] t = 1
 def Valid (M : Model) (th : Thm) : Prop :=
   ∀ ρ, Admissible M ρ → (∀ h ∈ th.hyps, holds M ρ h) → holds M ρ th.prop
 
-/-- logical constants occur only at instances of their declared types -/
-def sigOK : Term → Bool
-  | .const n T =>
-    if n == "equals" || n == "implies" || n == "all" then (logicalKind n T).isSome else true
-  | .comb f a => sigOK f && sigOK a
-  | .abs _ _ b => sigOK b
-  | _ => true
-
-def Thm.sigOK (th : Thm) : Bool := th.hyps.all Holpy.sigOK && Holpy.sigOK th.prop
+/- `logicalKind`, `sigOK`, `Thm.sigOK` live in Kernel/Thm.lean (the checker's `check_thm_type` uses them). -/
 
 end Holpy
